@@ -3,11 +3,34 @@
 package ck
 
 import (
+	"c19prog/pyx"
+
 	"github.com/goplus/lib/c"
 	"github.com/goplus/lib/py"
 )
 
-var Only = -1
+// Only is read when this package is initialised: cases whose call is written in a package-level initialiser or an init
+// function run before main.
+var Only = only()
+
+func only() int {
+	if p := pyx.Getenv(c.Str("C19_ONLY")); p != nil {
+		return int(c.Atoi(p))
+	}
+	return -1
+}
+
+// InitStart / InitDone bracket a call that is made while the packages are initialised (in every process, whatever
+// C19_ONLY says): "S id" without its "E id" attributes a crash during initialisation to the case.
+func InitStart(id int) bool {
+	println("S", id)
+	return Start(id)
+}
+
+func InitDone(id int) bool {
+	println("E", id)
+	return true
+}
 
 func Start(id int) bool {
 	if Only >= 0 && id != Only {
